@@ -221,7 +221,9 @@ func trunc(b []byte, n int) []byte {
 }
 
 var hostileGRPCStatus = []string{"", "0", "00", "+0", "-0", "-1", " 1", "1 ", "17", "99", "4294967295", "4294967296", "abc", "1,2", "0x1", "1e1"}
-var hostileMessages = []string{"", "%", "%%", "%G1", "%4", "%41", "ünï", "a%ZZb", "%e4%b8%96", strings.Repeat("%41", 100), "\x00", "tab\there"}
+var hostileMessages = []string{"", "%", "%%", "%G1", "%4", "%41", "ünï", "a%ZZb", "%e4%b8%96", strings.Repeat("%41", 100), "\x00", "tab\there", "a%41b%4", "%41%4", "x%41%", "%41%%", "bad %41rgument%4", "%c3%a9 lower", "%C3%A9 upper", "%41%4%"}
+
+var messageTokens = []string{"%", "%4", "%41", "%zz", "%c3", "%A9", "a", " ", "é", "%%", "4", "G"}
 var hostileJSON = []string{
 	`{}`, `null`, `[]`, `""`, `0`, `{"code":""}`, `{"code":"code_0"}`, `{"code":"code_4294967296"}`, `{"code":"code_17"}`, `{"code":5}`, `{"code":"OK"}`, `{"code":"ok"}`,
 	`{"message":"only message"}`, `{"code":"not_found"}`, `{"code":"not_found","message":5}`, `{"code":"not_found","details":{}}`, `{"code":"not_found","details":[{}]}`,
@@ -322,6 +324,10 @@ func gen(t *rapid.T) Case {
 			where := rapid.SampledFrom([]string{"trailer", "header", "both"}).Draw(t, "where")
 			st := rapid.SampledFrom(hostileGRPCStatus).Draw(t, "gstatus")
 			msg := rapid.SampledFrom(hostileMessages).Draw(t, "gmsg")
+			if rapid.Bool().Draw(t, "tokenmsg") {
+				// token soup: escapes, truncated escapes and plain bytes in any order
+				msg = strings.Join(rapid.SliceOfN(rapid.SampledFrom(messageTokens), 0, 8).Draw(t, "tokens"), "")
+			}
 			det := rapid.SampledFrom([]string{"", "!!!", "AAAA", refwire.EncodeBin(refwire.EncodeStatusProto(&refwire.Status{Code: 0, Message: "zero"}), false), refwire.EncodeBin(refwire.EncodeStatusProto(&refwire.Status{Code: 0xFFFFFFFF, Message: "neg"}), true), refwire.EncodeBin([]byte{0x1a, 0x05, 0x0a, 0x01}, false)}).Draw(t, "gdet")
 			apply := func(l []prog.KV) []prog.KV {
 				l = setKV(l, "Grpc-Status", st)
